@@ -15,6 +15,7 @@ def tslOfJson (j : Json) : Except String Tsl := do
 
 def layoutOfJson (j : Json) : Except String Layout := do
   if j.isNull then return .none
+  if (j.getObjVal? "other").isOk then return .other
   match j.getObjVal? "tsl" with
   | .ok t => return .tsl (← tslOfJson t)
   | .error _ =>
@@ -34,7 +35,7 @@ def jTsl (t : Tsl) : Json := Json.mkObj [("ts", jList (jList jStride) t.ts), ("o
 
 def errName : Err → String
   | .noMatch => "noMatch" | .assertion => "AssertionError" | .indexError => "IndexError"
-  | .structure => "structure" | .fuel => "fuel"
+  | .structure => "structure" | .fuel => "fuel" | .notImplemented => "NotImplementedError"
 
 def jErr (e : Err) : Json := Json.mkObj [("error", Json.str (errName e))]
 
